@@ -12,6 +12,8 @@ fn main() {
         p @ ("C01" | "C02" | "C03" | "C09") => props::graph::run(&args, p),
         p @ ("C04" | "C07") => props::action::run(&args, p),
         "C08" => props::trx::run(&args),
+        "C10" => props::init::run(&args),
+        "C14" => props::session::run(&args),
         "C05" => props::finalize::run(&args),
         "C06" => props::reject::run(&args),
         p => mcx::machinery_error(&format!("rt-graph does not serve {p}")),
